@@ -292,7 +292,7 @@ func forSectionsOf(l *Lineage, deps, mgmt bool, f func(list *[]Dep)) {
 
 // dupInOnePom: one list of one file (managed = false: a <dependencies> list;
 // managed = true: a managed list) declares the same (group, artifact, type,
-// classifier) twice with different content.
+// classifier) twice (dependencies: with different content).
 func dupInOnePom(managed bool) func(l *Lineage) bool {
 	return func(l *Lineage) bool { return dupInOnePom1(l, managed) }
 }
@@ -308,7 +308,9 @@ func dupInOnePom1(l *Lineage, managed bool) bool {
 				if d2.Type == "" && prev.Type == "jar" || d2.Type == "jar" && prev.Type == "" {
 					d2.Type = prev.Type
 				}
-				if !depSame(prev, d2) {
+				// Maven never normalises a managed list: even an identical
+				// repetition shows (it lists the entry twice).
+				if managed || !depSame(prev, d2) {
 					found = true
 				}
 				continue
@@ -559,8 +561,24 @@ func forProfiles(l *Lineage, f func(pr *Profile)) {
 	}
 }
 
+// plainJDK: negated = true: any "!version". negated = false: a plain version
+// for which Maven's rule (java.version starts with the text) and the rule
+// documented in profile.go (same major and minor number, not greater) part:
+// not a prefix although major and minor agree with the JDK's (11.0.1 for
+// 11.0.8), or a prefix that ends inside a number (1 for 11.0.8).
 func plainJDK(spec string, negated bool) bool {
-	return spec != "" && !strings.HasPrefix(spec, "[") && !strings.HasPrefix(spec, "(") && strings.HasPrefix(spec, "!") == negated
+	if spec == "" || strings.HasPrefix(spec, "[") || strings.HasPrefix(spec, "(") {
+		return false
+	}
+	if negated || strings.HasPrefix(spec, "!") {
+		return negated && strings.HasPrefix(spec, "!")
+	}
+	jdk := maven.JDKProfileActivation
+	if strings.HasPrefix(jdk, spec) {
+		return len(spec) < len(jdk) && jdk[len(spec)] != '.'
+	}
+	sp, jp := strings.Split(spec, "."), strings.Split(jdk, ".")
+	return len(sp) > 2 && len(jp) > 2 && sp[0] == jp[0] && sp[1] == jp[1]
 }
 
 // jdkSpec: a profile's <jdk> is a plain (negated = false) or a negated version
